@@ -125,7 +125,8 @@ static void cmd_write (void)
 {
 	mpq_QSdata *p = slot ();
 	const char *ft = tok ();
-	char *path = unhex (tok ());
+	const char *pt = tok ();
+	char *path = strcmp (pt, "NULL") ? unhex (pt) : 0;
 	int rv = mpq_QSwrite_prob (p, path, ft);
 	printf ("write %d\n", rv ? 1 : 0);
 	free (path);
@@ -438,6 +439,16 @@ int qsx_more_commands (const char *c)
 	else if (!strcmp (c, "readbasis")) cmd_readbasis ();
 	else if (!strcmp (c, "loadbasis")) cmd_loadbasis ();
 	else if (!strcmp (c, "putfile")) cmd_putfile ();
+	else if (!strcmp (c, "infeasnull")) { mpq_QSdata *p = slot (); printf ("rc %d\n", mpq_QSget_infeas_array (p, 0) ? 1 : 0); }
+	else if (!strcmp (c, "pivotin"))
+	{
+		mpq_QSdata *p = slot ();
+		int k = 0, *l, rv, isrow = tok ()[0] == 'r';
+		l = tok_ints (&k);
+		rv = isrow ? mpq_QSopt_pivotin_row (p, k, l) : mpq_QSopt_pivotin_col (p, k, l);
+		printf ("rc %d\n", rv ? 1 : 0);
+		free (l);
+	}
 	else if (!strcmp (c, "setprec")) { QSexact_set_precision ((unsigned) tok_int ()); printf ("ok\n"); }
 	else if (!strcmp (c, "setlim"))
 	{
